@@ -266,6 +266,30 @@ def oracle_hist(p):
     after = np.array(o.psd)
     if o.sides != sides_before or after.shape != before.shape or rel(after, before) > 1e-12:
         out.append("re-assigning unchanged values altered the result (%s)" % tag)
+    if not out and (len(p["ops"]) + 2 * p["data0"]) % 3 != 1:
+        # the other way of reading the estimate: get_converted_psd(sides) straight after the history (no psd read before it)
+        o2 = build(cls, dict(init_attrs(cls, p["data0"])))
+        ok = True
+        for op in p["ops"]:
+            if op[0] == "read":
+                continue
+            try:
+                apply_op(o2, op)
+            except AssertionError:
+                if not (op[0] == "sides" and op[1] == "onesided" and np.iscomplexobj(o2.data)):
+                    ok = False
+                    break
+        if ok:
+            sides_ok = ["twosided", "centerdc"] + ([] if a["cplx"] else ["onesided"])
+            sd = sides_ok[(len(p["ops"]) + len(cls)) % len(sides_ok)]
+            got_c = o2.get_converted_psd(sd)
+            f2 = build(cls, a)
+            _ = f2.psd
+            exp_c = np.asarray(f2.get_converted_psd(sd))
+            if got_c is None or np.asarray(got_c).shape != exp_c.shape or rel(np.asarray(got_c), exp_c) > 1e-9:
+                out.append("get_converted_psd('%s') right after the history differs from that of a fresh object with the same final "
+                           "attribute values (%s values against %d) (%s)" % (
+                               sd, "no" if got_c is None else len(got_c), len(exp_c), tag))
     if not out and (len(p["ops"]) + p["data0"]) % 2 == 0:
         # arithmetic through the data property (`p.data *= 3`, `p.data -= p.data.mean()`): the setter receives the SAME array
         # object with new contents - still an assignment of new data
